@@ -534,6 +534,64 @@ func checkArity(p *an.Prog, r *an.Run) {
 			bad = append(bad, failPropagates(p, pp, c)...)
 		}
 	}
+	// no success ahead of the checks: a successful return either follows the opening-bracket test of the decoder, or
+	// is the "no params at all" case decided from the raw params alone (absent / null); anything else (e.g. an early
+	// return for methods without parameters) lets surplus or wrongly shaped params through unchecked
+	var tokCall ssa.Instruction
+	for _, c := range an.Calls(pp, false) {
+		if f := an.CallObj(c); f != nil && f.Name() == "Token" && tokCall == nil {
+			tokCall = c.(ssa.Instruction)
+		}
+	}
+	rawPrm := pp.Params[0]
+	an.AllInstrs(pp, func(in ssa.Instruction) {
+		ret, ok := in.(*ssa.Return)
+		if !ok || (pp.Recover != nil && ret.Block() == pp.Recover) {
+			return
+		}
+		if cls, _ := returnClass(ret); cls == "nonnil" {
+			return
+		}
+		if tokCall != nil && an.Dominates(tokCall, ret) {
+			return
+		}
+		okRaw := false
+		for _, c := range an.ControllingIfs(ret.Block()) {
+			d := p.Derives(0, c.If.Cond)
+			if d.HasParam(rawPrm) && !d.HasParam(typesPrm) {
+				okRaw = true
+			} else {
+				okRaw = false
+				break
+			}
+		}
+		if !okRaw {
+			// the no-args return sits behind "len(raw)==0 || raw=="null"": it is reached from both tests' true edges,
+			// so it has no single controlling branch; accept it when every predecessor test reads only the raw params
+			okRaw = true
+			nPred := 0
+			for _, pb := range ret.Block().Preds {
+				if len(pb.Instrs) == 0 {
+					continue
+				}
+				if iff, isIf := pb.Instrs[len(pb.Instrs)-1].(*ssa.If); isIf {
+					nPred++
+					d := p.Derives(0, iff.Cond)
+					if !d.HasParam(rawPrm) || d.HasParam(typesPrm) {
+						okRaw = false
+					}
+				} else {
+					okRaw = false
+				}
+			}
+			if nPred == 0 {
+				okRaw = false
+			}
+		}
+		if !okRaw {
+			bad = append(bad, "a success return at "+p.Pos(ret.Pos())+" is reachable without the params having been inspected (only absent or null params may skip the checks)")
+		}
+	})
 	// every success return hands back len(types) values: the fill loop runs to len(types)
 	r.Check(len(bad) == 0, "arity", an.FuncName(pp), pp.Pos(), "too many / undecodable / missing required arguments are refused", "%s", strings.Join(bad, "; "))
 
@@ -933,6 +991,34 @@ func runC17(p *an.Prog, r *an.Run, tier string) {
 					}
 				}
 			})
+		}
+		// ... and the stub itself sends it once: one Do per Call, outside any loop, through a helper (if any) that is
+		// itself called once — a retry "after a connection loss" re-executes a message the server may have handled
+		nDo := 0
+		for _, fn := range regionFuncs(p, hc) {
+			for _, c := range an.Calls(fn, false) {
+				f := an.CallObj(c)
+				if f == nil || !(an.IsMethod(f, "net/http", "Client", "Do") || an.IsMethod(f, "net/http", "Client", "Post") || an.IsFunc(f, "net/http", "Post")) {
+					continue
+				}
+				nDo++
+				if inLoop(c.(ssa.Instruction)) {
+					bad = append(bad, "the request is sent inside a loop ("+p.Pos(c.Pos())+")")
+				}
+				top := fn
+				for top.Parent() != nil {
+					top = top.Parent()
+				}
+				if top != hc {
+					sites := p.StaticSites(top)
+					if len(sites) != 1 || inLoop(sites[0].(ssa.Instruction)) {
+						bad = append(bad, an.FuncName(top)+", which sends the request, is called "+itoa(len(sites))+" times (or in a loop) per Call: a message the server already handled can be sent again")
+					}
+				}
+			}
+		}
+		if nDo != 1 {
+			bad = append(bad, "expected exactly one send of the HTTP request per Call, found "+itoa(nDo))
 		}
 		r.Floor("http-requests-built", nReq, 1)
 		r.Check(len(bad) == 0, "http-once", an.FuncName(hc), hc.Pos(), "the HTTP stub sends a plain POST the transport never replays", "%s", strings.Join(dedup(bad), "; "))
